@@ -269,6 +269,18 @@ class Repo:
                     m.repo = self
                     self.by_modname[m.modname] = m
         self._resolve_bases()
+        for m in self.modules.values():          # `name = staticmethod(_function)` / `name = _function` in a class body: the function is a (static) method
+            for c in m.classes.values():
+                for a0, v0 in list(c.class_attrs.items()):
+                    target = v0.args[0] if isinstance(v0, ast.Call) and isinstance(v0.func, ast.Name) and v0.func.id == "staticmethod" and len(v0.args) == 1 else None
+                    if isinstance(target, ast.Name) and target.id in m.functions and a0 not in c.methods:
+                        alias = clone(m.functions[target.id])
+                        alias.name = a0
+                        alias.decorator_list = [ast.Name(id="staticmethod", ctx=ast.Load())]
+                        alias._cls, alias._module = c, m
+                        set_parents(alias)
+                        alias._parent = None
+                        c.methods[a0] = alias
         for m in self.modules.values():          # nested functions belong to the module (and class) of the function they are written in
             for n0 in ast.walk(m.tree):
                 if isinstance(n0, ast.FunctionDef) and getattr(n0, "_module", None) is None:
